@@ -455,7 +455,7 @@ def run_case(c, tmpdir):
     try:
         if c['sink'] == 'bytesio':
             target.seek(0)
-        info, view, errors = read_back(target, skip=malformed)
+        info, view, errors = read_back(target, want_pixels=c.get('reader_pixels', True), skip=malformed)
         res['reader'] = {'info': info, 'view': view, 'errors': errors}
     except (Exception, ReaderTimeout) as ex:  # noqa: BLE001
         res['reader'] = {'open_error': f'{type(ex).__name__}: {ex}'[:400]}
